@@ -310,7 +310,7 @@ func Run(cfg hx.Config) error {
 	h := &hist{r: r, s: ctrl.NewSession(r)}
 	h.known()
 
-	nHist := cfg.N(500, 8000)
+	nHist := cfg.N(1200, 8000)
 	for i := 0; i < nHist && !r.Stop() && !h.s.Lost; i++ {
 		h.reset()
 		cur := c07.GenConfig(rnd)
